@@ -357,6 +357,45 @@ class MinimizePatterns(Simple, DisjointUnionStrategy[WC, W]):
         return cls(**d)
 
 
+class AddRedundant(Simple, DisjointUnionStrategy[WC, W]):
+    """A one-way single-child rule (the strategy declares itself not two-way): a class with a minimal
+    pattern set is the class with one redundant pattern added (same objects).  Together with
+    MinimizePatterns (two-way, in the other direction) the same pair of classes gets first a one-way
+    and then a two-way rule."""
+
+    def __init__(self, ignore_parent=False, inferrable=True, possibly_empty=False, workable=True):
+        super().__init__(ignore_parent=ignore_parent, inferrable=inferrable, possibly_empty=possibly_empty, workable=workable)
+
+    def is_two_way(self, comb_class):
+        return False
+
+    def decomposition_function(self, c):
+        if not c.patterns or c.just_prefix:
+            return None
+        if any(q != p and q in p for p in c.patterns for q in c.patterns):
+            return None  # already redundant
+        p = c.patterns[0]
+        return (c.with_(patterns=list(c.patterns) + [p + p[-1]]),)
+
+    def extra_parameters(self, c, children=None):
+        if children is None:
+            children = self.decomposition_function(c)
+        return same_params(c, children)
+
+    def formal_step(self):
+        return "add a redundant pattern"
+
+    def forward_map(self, c, w, children=None):
+        return (w,)
+
+    def __repr__(self):
+        return "AddRedundant()"
+
+    @classmethod
+    def from_dict(cls, d):
+        return cls(**d)
+
+
 class MergeStats(Simple, DisjointUnionStrategy[WC, W]):
     """inferral: statistics with the same letter set are merged into one child statistic (several
     parent statistics map onto it); statistics that can only be 0 are dropped by the child."""
@@ -552,11 +591,13 @@ def basic_pack(**kw):
 
 def make_pack(sym=False, inf=False, merge=False, iterative=False, factory=False, parent_factory=False,
               prefix_verified=None, prefix_verified_rev=None, empty_prefix_verified=False, two_sets=False, no_initial=False, name=None, expand=True,
-              split=False):
+              split=False, oneway=False):
     inferral = ([MinimizePatterns()] if inf else []) + ([MergeStats()] if merge else [])
     exp = [ExpandFactory()] if factory else [Expand()]
     if parent_factory:
         exp = (exp if expand else []) + [ParentRuleFactory()]
+    if oneway:
+        exp = exp + [AddRedundant()]
     expansion = [exp]
     if two_sets:
         expansion = [[RemoveFront()], exp] if no_initial else [exp, [ExpandFactory()]]
